@@ -42,6 +42,9 @@ def load_schema(key, text):
             _CACHE[key] = ('unsupported-user-function', sorted(fns))
             return _CACHE[key]
         try:
+            compile_lvs(text)
+            # the model under test comes from compiling the same text a second time in the same process (a compiler
+            # is used for many schemas, and for the same schema again, in its life)
             model = compile_lvs(text)
         except Exception as e:
             _CACHE[key] = ('compile-rejects', repr(e))
